@@ -14,6 +14,8 @@ def mk(k1, k2, n, timeout=900, solver=None):
           "vm_scan.0": 3, "vm_scan.1": n + 2}
     return Case("sig-%s-%s-n%d" % (KN[k1], KN[k2], n), H, SRCS, defs=["-DK1=%d" % k1, "-DK2=%d" % k2, "-DN=%d" % n, "-DLEVEL=1"], unwind=n + 5, unwindset=us,
                 object_bits=11, timeout=timeout, solver=solver, mem_est=8, functions=FUNCS,
+                # two choices / quoted texts do not fit the data bound: delivering both items is not reachable for these pairs
+                optional_witness=(["two-items-delivered"] if KN[k1] in ("Choice", "CopyText") and KN[k2] in ("Choice", "CopyText") else []),
                 stubs=["strtol/strtod (exact consumed-prefix models)", "strncasecmp (CBMC model)", "strndup/strnlen models"],
                 bounds=dict(message="H SP <data> LF with every data string of 0..%d bytes over {1 0 . V O N \\\" x , SP # H F ( ) -}" % n,
                             signature="%s then %s, each mandatory or optional (symbolic)" % (KN[k1], KN[k2])))
